@@ -63,6 +63,8 @@ class FSock:
         self.shutdown_called = False
         self.eof_seen = False
         self.connect_calls = 0
+        self.last_conn = None        # outcome of the last connect(): d(one) p(ending) k(already connected) n x
+        self.reset_by_shutdown = False
         self.ops = 0
         self.closed = False
 
@@ -97,9 +99,15 @@ class FSock:
     def connect(self, addr):
         self.ops += 1
         self.connect_calls += 1
+        if self.reset_by_shutdown:
+            # Linux: shutdown(SHUT_WR) on a socket in SYN_SENT aborts the attempt (no FIN is ever sent);
+            # a later connect() on the same socket starts a fresh connection
+            self.reset_by_shutdown = False
+            self.shutdown_called = False
         steps = self.plan.get("connect", ["d"])
         st = steps[min(self.connect_calls - 1, len(steps) - 1)]
         self.w.rec["conn"] = st if st in ("d", "p", "k", "n", "x") else "n"
+        self.last_conn = st
         if st == "d":
             return
         e = {"p": errno.EINPROGRESS, "k": errno.EISCONN, "n": self.plan.get("connect_errno", errno.ECONNREFUSED),
@@ -153,6 +161,8 @@ class FSock:
 
     def shutdown(self, how):
         self.shutdown_called = True
+        if self.last_conn == "p":
+            self.reset_by_shutdown = True
         if self.plan.get("shutdown_fails"):
             self.w.rec["shut"] = "0"
             raise sock_err(errno.ENOTCONN)
@@ -800,6 +810,11 @@ def check_oracles(w):
         if dst.shutdown_called and not (dst.wr == app.rd and app.eof_seen):
             out["C02"].append(("destination saw end-of-stream before all data / before the application closed",
                                {"flow": f, "dst_got": len(dst.wr), "app_wrote": len(app.rd), "app_closed": app.eof_seen}))
+        if (getattr(w, "calm", 0) >= 3 and app.eof_seen and dst.wr == app.rd and dst.last_conn in ("d", "k")
+                and not dst.shutdown_called and not dst.closed):
+            out["C02"].append(("quiescent: the application closed its sending side and everything it wrote was delivered, "
+                               "the destination is connected, yet it never saw the end-of-stream",
+                               {"flow": f, "delivered": len(dst.wr), "connect_calls": dst.connect_calls}))
         a_plan, d_plan = app.plan, dst.plan
         # F22: a data-less half-close that reaches the server while the destination connect is pending
         f22 = app.eof_seen and a_plan["data"] == 0 and "p" in d_plan.get("connect", [])
